@@ -131,12 +131,13 @@ fn render(spec: &NumSpec) -> String {
     let frac = spec.frac;
     // at least one digit overall
     let int_len = if int_len == 0 && frac.map(|f| f == 0).unwrap_or(true) { 1 } else { int_len };
-    s.push_str(&digits_with_underscores(int_len, &mut rng, spec.underscores, false));
+    s.push_str(&digits_with_underscores(int_len, &mut rng, spec.underscores, spec.seed & 1 == 1));
     let mut frac_digits = 0i128;
     if let Some(f) = frac {
         s.push('.');
-        // underscores right after the point are only legal when an integer digit came first
-        let d = digits_with_underscores(f, &mut rng, if int_len > 0 { spec.underscores } else { 0 }, false);
+        // an underscore is only ever emitted after a digit of the same run (also after the last one), so the fraction
+        // may carry them whether or not an integer digit came first (".5_5", "1.5_")
+        let d = digits_with_underscores(f, &mut rng, spec.underscores, spec.seed & 2 == 2);
         frac_digits = d.bytes().filter(|b| b.is_ascii_digit()).count() as i128;
         s.push_str(&d);
     }
@@ -211,8 +212,13 @@ fn numspec(max_digits: usize) -> BoxedStrategy<NumSpec> {
         .boxed()
 }
 
+/// radices: 0..40 and values that alias 10 under a truncating cast (10 + 2^8, 10 + 2^16, 2^32 - 6 as i8 = -6, ...)
+fn radix_strategy() -> BoxedStrategy<u32> {
+    prop_oneof![12 => 0u32..=40, 1 => Just(266u32), 1 => Just(65_546u32), 1 => Just(16_777_226u32), 1 => Just(u32::MAX - 5), 1 => Just(u32::MAX), 1 => Just(1u32 << 31)].boxed()
+}
+
 fn numeral_strategy(max_digits: usize) -> BoxedStrategy<Text> {
-    (numspec(max_digits), 0u32..=40).prop_map(|(spec, radix)| Text { bytes: render(&spec).into_bytes(), radix }).boxed()
+    (numspec(max_digits), radix_strategy()).prop_map(|(spec, radix)| Text { bytes: render(&spec).into_bytes(), radix }).boxed()
 }
 
 const MUT_TOKENS: &[&[u8]] = &[
@@ -221,7 +227,7 @@ const MUT_TOKENS: &[&[u8]] = &[
 ];
 
 fn mutated_strategy(max_digits: usize) -> BoxedStrategy<Text> {
-    (numspec(max_digits), proptest::collection::vec((any::<u16>(), 0..MUT_TOKENS.len(), 0..3u8), 1..3), 0u32..=40)
+    (numspec(max_digits), proptest::collection::vec((any::<u16>(), 0..MUT_TOKENS.len(), 0..3u8), 1..3), radix_strategy())
         .prop_map(|(spec, muts, radix)| {
             let mut b = render(&spec).into_bytes();
             for (pos, tok, how) in muts {
